@@ -4,9 +4,7 @@
 #include "stubs/alloc_model.h"
 #include "spec/utf8.h"
 
-extern const unsigned char *g_u_src;
-extern size_t g_u_len, g_u_calls, g_u_count;
-extern unsigned g_u_state;
+#include "contracts/unicode.h"
 uint32_t _cbor_unicode_decode(uint32_t *state, uint32_t *codep, uint32_t byte);
 size_t nondet_size(void);
 uint32_t nondet_u32(void);
